@@ -1189,8 +1189,21 @@ func (z *Decimal) setBits64(neg bool, x uint64, exp int64) *Decimal {
 	// x != 0
 	z.form = finite
 	z.mant = z.mant.setUint64(x)
-	z.setExpAndRound(exp+int64(len(z.mant))*_DW-dnorm(z.mant), 0)
+	z.setExpAndRound(clampExp(exp)+int64(len(z.mant))*_DW-dnorm(z.mant), 0)
 	return z
+}
+
+// clampExp saturates an exponent argument far outside the int32 range so
+// that adding mantissa length corrections to it cannot wrap an int64.
+func clampExp(exp int64) int64 {
+	const lim = 1 << 40
+	if exp > lim {
+		return lim
+	}
+	if exp < -lim {
+		return -lim
+	}
+	return exp
 }
 
 // SetInt64 sets z to the (possibly rounded) value of x and returns z. If z's
@@ -1250,7 +1263,7 @@ func (z *Decimal) SetMantExp(mant *Decimal, exp int) *Decimal {
 	if z.form != finite {
 		return z
 	}
-	z.setExpAndRound(int64(z.exp)+int64(exp), 0)
+	z.setExpAndRound(int64(z.exp)+clampExp(int64(exp)), 0)
 	return z
 }
 
@@ -1704,7 +1717,7 @@ func (z *Decimal) SetBitsExp(mant []Word, exp int64) *Decimal {
 				z.prec = uint32(d)
 			}
 		}
-		z.setExpAndRound(exp-dnorm(z.mant)-int64(len(mant)-len(z.mant))*_DW, 0)
+		z.setExpAndRound(clampExp(exp)-dnorm(z.mant)-int64(len(mant)-len(z.mant))*_DW, 0)
 	} else {
 		z.acc = Exact
 		z.form = zero
